@@ -2,5 +2,7 @@
 EXTENDS GnmiSet
 EnabledA == { <<"c">>, <<"c","a">>, <<"l">>, <<"l","k">>, <<"l","v">>, <<"l","sub">>, <<"l","sub","w">> }
 EnabledB == { <<"c">>, <<"c","a">>, <<"c","ll">>, <<"c","p">>, <<"c","p","x">>, <<"ol">>, <<"ol","k">>, <<"ol","v">> }
+\* slice O: the ordered list with a nested container in its entries
+EnabledO == { <<"ol">>, <<"ol","k">>, <<"ol","sub">>, <<"ol","sub","w">> }
 EnabledM == { <<"c">>, <<"c","a">>, <<"m">>, <<"m","k1">>, <<"m","k2">>, <<"m","v">> }
 =============================================================================
